@@ -289,9 +289,11 @@ def waiver_at(fa: FuncAnalysis, n: Node) -> Optional[str]:
     tnames = _declared_type_names(fa)
     for a, p in fa.facts.atoms_at(n):
         t = unparse(a)
-        if p and isinstance(a, ast.Compare) and opt_attr(a.left) in ("invalid_items", "invalid_keys", "invalid_values") \
-                and unparse(a.comparators[0]).endswith("PRESERVE"):
-            return f"{t} (documented unsafe policy)"
+        if isinstance(a, ast.Compare) and len(a.ops) == 1 and opt_attr(a.left) in ("invalid_items", "invalid_keys", "invalid_values") \
+                and unparse(a.comparators[0]).endswith("PRESERVE") \
+                and ((p and isinstance(a.ops[0], ast.Eq)) or (not p and isinstance(a.ops[0], ast.NotEq))):
+            # `policy == PRESERVE` taken, or `policy != PRESERVE` not taken
+            return f"{t}={bool(p)} (documented unsafe policy)"
         if isinstance(a, ast.Call) and call_attr(a) == "isinstance" and len(a.args) == 2 and not p \
                 and opt_attr(a.args[0]) == "addition" and unparse(a.args[1]) == "type":
             return "options.addition is truthy but not a type (surplus items are kept as they are)"
